@@ -592,6 +592,28 @@ def batches(rng, tier):
         specs.append(Spec("R", dk=dk, t=t, deco=r.choice(["p", "s"]), eng=r.choice(ENGINES), seed=seed_for(r), ctor=ctor, segs=segs))
     yield Batch("real-normal", materialise(specs), note="uniform_real / normal over float, double, plain and strong typedef; bit patterns; odd draw counts exercise normal's saved value across reset()")
 
+    # 6b. floating point at the edges of the format: signed zeros, denormals, the largest finite values, infinite mean
+    r = rng.fork("real-special")
+    specs = []
+    k = 0
+    for t in "fd":
+        tiny, big = (1e-45, 3.4028234663852886e38) if t == "f" else (5e-324, 1.7976931348623157e308)
+        one_up = bits2f(f2bits(1.0, t) + 1, t)
+        vals = [-big, -1.0, -tiny, -0.0, 0.0, tiny, 1.0, one_up, big]
+        pairs = [(x, y) for i, x in enumerate(vals) for y in vals[i:] if not (x == -big and y == big)]      # b - a must be finite
+        for a, b in pairs:
+            specs.append(Spec("R", dk="ur", t=t, deco="ps"[k % 2], eng=ENGINES[k % 2], seed=seed_for(r), ctor=CTORS[k % 5],
+                              segs=[("new", f2bits(a, t), f2bits(b, t), 5)]))
+            k += 1
+        for m in vals + [float("inf"), float("-inf")]:
+            for sd in (tiny, 1.0, big):
+                specs.append(Spec("R", dk="no", t=t, deco="ps"[k % 2], eng=ENGINES[k % 2], seed=seed_for(r), ctor=CTORS[k % 5],
+                                  segs=[("new", f2bits(m, t), f2bits(sd, t), 5)]))
+                k += 1
+    yield Batch("real-special-values", materialise(specs), exhaustive=True,
+                note="uniform_real on every ordered pair and normal on every (mean, stddev) from {+-max, +-1, +-denorm_min, +-0, 1+ulp} (mean also +-inf), "
+                     "float and double: the bit patterns of the parameters reach the wrapped distribution unchanged")
+
     # 7. raw generators
     r = rng.fork("gen")
     specs = []
